@@ -52,6 +52,46 @@ void *calloc(size_t n, size_t sz)
 }
 #define CALLOC_FRAME g_lowfail, g_calloc_last, g_calloc_n, g_calloc_sz
 
+/* ---- variadic emulator functions called by mark.c: fixed-arity logging stubs ---- */
+#include "chan.h"
+#include "track.h"
+#include "bay.h"
+#include "cpu.h"
+#include "emu.h"
+#include "emu_ev.h"
+#include "emu_prv.h"
+#include "ovni.h"
+#include "ovni/ovni_priv.h"
+#include "parson.h"
+#include "pv/pcf.h"
+#include "pv/prv.h"
+#include "pv/pvt.h"
+#include "thread.h"
+struct c17_call { void *obj; long a, b; void *p, *q; };
+#define C17_LOGN 4
+struct c17_clog { unsigned n; struct c17_call c[C17_LOGN]; };
+static inline void c17_log(struct c17_clog *l, void *obj, long a, long b, void *p, void *q)
+{
+	if (l->n < C17_LOGN) {
+		l->c[l->n].obj = obj; l->c[l->n].a = a; l->c[l->n].b = b; l->c[l->n].p = p; l->c[l->n].q = q;
+	}
+	l->n++;
+}
+struct c17_clog g_l_chan_init, g_l_track_init;
+static inline void c17_chan_init(struct chan *ch, enum chan_type type)
+{
+	c17_log(&g_l_chan_init, ch, (long) type, 0, NULL, NULL);
+}
+static inline int c17_track_init(struct track *tr, struct bay *bay, enum track_type type, int mode)
+{
+	c17_log(&g_l_track_init, tr, (long) type, (long) mode, bay, NULL);
+	if (nondet_bool()) { g_lowfail++; return -1; }
+	return 0;
+}
+#define chan_init(ch, type, ...) c17_chan_init((ch), (type))
+#define track_init(tr, bay, type, mode, ...) c17_track_init((tr), (bay), (type), (mode))
+
+/* (after every header mark.c includes: value.h has its own inline snprintf uses) */
 /* ---- snprintf(buf, n, "%s", s): the only form used by mark.c ----
  * default: the prelude's model (formatting dropped, any length returned; the
  *   caller's `>= size` truncation check stays live), truncation counted;
@@ -83,32 +123,5 @@ static inline int c17_snprintf(char *s, size_t n)
 #define snprintf(s, n, ...) c17_snprintf((s), (n))
 #endif
 
-/* ---- variadic emulator functions called by mark.c: fixed-arity logging stubs ---- */
-#include "chan.h"
-#include "track.h"
-#include "bay.h"
-struct c17_call { void *obj; long a, b; void *p, *q; };
-#define C17_LOGN 4
-struct c17_clog { unsigned n; struct c17_call c[C17_LOGN]; };
-static inline void c17_log(struct c17_clog *l, void *obj, long a, long b, void *p, void *q)
-{
-	if (l->n < C17_LOGN) {
-		l->c[l->n].obj = obj; l->c[l->n].a = a; l->c[l->n].b = b; l->c[l->n].p = p; l->c[l->n].q = q;
-	}
-	l->n++;
-}
-struct c17_clog g_l_chan_init, g_l_track_init;
-static inline void c17_chan_init(struct chan *ch, enum chan_type type)
-{
-	c17_log(&g_l_chan_init, ch, (long) type, 0, NULL, NULL);
-}
-static inline int c17_track_init(struct track *tr, struct bay *bay, enum track_type type, int mode)
-{
-	c17_log(&g_l_track_init, tr, (long) type, (long) mode, bay, NULL);
-	if (nondet_bool()) { g_lowfail++; return -1; }
-	return 0;
-}
-#define chan_init(ch, type, ...) c17_chan_init((ch), (type))
-#define track_init(tr, bay, type, mode, ...) c17_track_init((tr), (bay), (type), (mode))
 
 #endif
